@@ -8,7 +8,9 @@ tie:   (1) exhaustive unit-level differential: the real `ReadParameter` on a dee
 """
 from __future__ import annotations
 
+import contextlib
 import copy
+import io
 import json
 import math
 import os
@@ -180,6 +182,90 @@ def unit_level(chk: core.Check, ext):
     chk.coverage['unit_level_parameters'] = len(done)
 
 
+def unit_probes(chk: core.Check, ext):
+    """range enforcement when the value is written with a unit suffix: the converted value is what the range applies to"""
+    import logging
+    from tools import extract
+    import geophires_x.Model  # noqa: F401
+    from geophires_x.Parameter import ParameterEntry, ReadParameter, floatParameter
+    from geophires_x.Units import Units, get_unit_registry
+
+    logging.disable(logging.CRITICAL)
+    ureg = get_unit_registry()
+    skip_types = {Units.CURRENCY, Units.CURRENCYFREQUENCY, Units.COSTPERMASS, Units.ENERGYCOST, Units.NONE, Units.PERCENT}
+    done = set()
+    for fam, settings in list(extract.FAMILIES):
+        try:
+            m = extract.instantiate_family(settings)
+        except Exception:
+            continue
+        for mod in [getattr(m, a, None) for a in extract.MODULES]:
+            if mod is None or not hasattr(mod, 'ParameterDict'):
+                continue
+            cls = type(mod).__name__
+            for key, p in mod.ParameterDict.items():
+                if not isinstance(p, floatParameter) or (cls, p.Name) in done or p.UnitType in skip_types:
+                    continue
+                done.add((cls, p.Name))
+                pref = p.PreferredUnits
+                if p.CurrentUnits != pref or not hasattr(pref, 'value'):
+                    continue
+                mn, mx = float(p.Min), float(p.Max)
+                alts = []
+                for u in type(pref):
+                    try:
+                        ureg.Quantity(1.0, pref.value).to(u.value)
+                        alts.append(u)
+                    except Exception:
+                        pass
+                for u in alts:
+                    for tag, bound, sign in (('below', mn, -1), ('above', mx, +1), ('inside-near-min', mn, +1), ('inside-near-max', mx, -1)):
+                        if not math.isfinite(bound) or not mn < mx:
+                            continue
+                        for margin in (1e-6, 1e-3):
+                            target = bound + sign * (abs(bound) * margin if bound != 0 else margin * 1e-6)
+                            try:
+                                v_alt = float(ureg.Quantity(target, pref.value).to(u.value).magnitude)
+                                back = float(ureg.Quantity(v_alt, u.value).to(pref.value).magnitude)
+                            except Exception:
+                                break
+                            outside = back < mn or back > mx
+                            if (tag in ('below', 'above')) == outside and math.isfinite(v_alt) and (back != bound):
+                                break
+                        else:
+                            continue
+                        if back == p.DefaultValue or back == p.value:
+                            continue
+                        q = copy.deepcopy(p)
+                        q.Provided, q.Valid = False, False
+                        text = f'{v_alt!r} {u.value}'
+                        try:
+                            with contextlib.redirect_stdout(io.StringIO()):
+                                ReadParameter(ParameterEntry(Name=p.Name, sValue=text, Comment=''), q, m)
+                            outcome, msg = 'accept', None
+                        except ValueError as e:
+                            outcome, msg = 'reject', str(e)
+                        except Exception as e:  # noqa
+                            outcome, msg = 'other-error', f'{type(e).__name__}: {e}'
+                        chk.case((cls, p.Name, 'units', u.value, tag), True)
+                        chk.tag(f'units/{tag}/{outcome}')
+                        rep = {'class': cls, 'parameter': p.Name, 'text_given': text, 'equivalent_in_preferred_units': back, 'preferred_unit': pref.value,
+                               'declared': {'min': mn, 'max': mx}, 'probe': tag, 'code': {'outcome': outcome, 'value_after': repr(q.value), 'message': msg}}
+                        if outcome == 'other-error':
+                            continue   # a unit the reader cannot convert: C06's subject, not a silent alteration
+                        if tag in ('below', 'above'):
+                            if outcome != 'reject':
+                                chk.fail(f'C07/units/accepted-out-of-range/{tag}/{cls}/{p.Name}', f'{p.Name}: "{text}" is outside the allowed range after conversion but was not rejected', rep)
+                            elif p.Name not in (msg or ''):
+                                chk.fail(f'C07/units/error-does-not-name-parameter/{cls}/{p.Name}', 'the rejection message does not name the parameter', rep)
+                        else:
+                            if outcome != 'accept':
+                                chk.fail(f'C07/units/rejected-in-range/{cls}/{p.Name}/{u.value}', f'{p.Name}: "{text}" is inside the documented bounds after conversion but was rejected', rep)
+                            elif not (isinstance(q.value, (int, float)) and math.isclose(float(q.value), back, rel_tol=1e-9, abs_tol=0.0)):
+                                chk.fail(f'C07/units/altered/{cls}/{p.Name}/{u.value}', f'{p.Name}: "{text}" was accepted but the stored value is not the converted value (clamped or replaced)', rep)
+    chk.coverage['unit_suffixed_parameters'] = len(done)
+
+
 # ---------------------------------------------------------------------------------------------------------------------------------------
 PIPE_FAMILIES = [
     ('default-elec', lambda: geo.base_params(2, 1, 1)), ('heat-industrial', lambda: geo.base_params(1, 2, 9)),
@@ -300,6 +386,7 @@ def run(chk: core.Check) -> int:
                 chk.fail(f'C07/declaration/empty-allowable/{d["class"]}/{d["name"]}', f'{d["name"]} declares an empty allowable set', {'decl': {k: v for k, v in d.items() if k != 'allow'}})
     quick = chk.tier == 'quick'
     unit_level(chk, ext)
+    unit_probes(chk, ext)
     pipeline(chk, ext, 12 if quick else 400)
     chk.assumptions += ['"documented not-provided sentinel" = a value equal to the declared default (ReadParameter returns before the range test) — e.g. the -1 defaults of cost overrides',
                         'list parameters (gradients, thicknesses) are outside the property\'s "scalar" scope; string / bool parameters have no range',
